@@ -323,7 +323,7 @@ impl<'ast, 'm> Visit<'ast> for EffVisitor<'m> {
                 self.eff.assigned.insert(r);
             }
         }
-        if self.fuel_names.contains(&n) {
+        if self.fuel_names.contains(&n) || (n == "last" && i.args.is_empty()) {
             self.eff.ret = true;
         }
         self.mutargs(&n, i.args.iter());
